@@ -1163,6 +1163,20 @@ fn history(em: &mut Em, rng: &mut Rng, nmax: usize, maxlen: usize) {
             let st = build_any(cur_lt, &cur, s.lay);
             let class = class_of(&s.op, &cur);
             if !promised(&s.op, &cur, std_any(&st)) {
+                // outside the guard nothing is promised and nothing is compared with the model; but a
+                // dataset that *is* returned (instead of the documented panic) must still be aligned
+                if let Some(res) = exec_any(&st, &s.op) {
+                    let n1_ok = match &s.op {
+                        Op::SplitV { r } | Op::SplitO { r } => ceil_ratio(cur.n, *r) <= cur.n,
+                        _ => false,
+                    };
+                    if n1_ok {
+                        oracle_step(ctx, &s.op, &cur, &res, &None, &None);
+                    }
+                    for o in &res.outs {
+                        tags_ok(ctx, &class, s.op.name(), o, &truth);
+                    }
+                }
                 out.push(format!("{}:unpromised", s.op.name()));
                 break;
             }
